@@ -25,7 +25,7 @@ fn env1() -> LayerEnv { let mut e = LayerEnv::new(); e.insert(Scope::All, MB::Ov
 pub fn faults(_thorough: bool) -> Report {
     let mut r = Report::new(
         "each public operation run on a prepared real directory in which ONE file it must read or write fails: write target -> /dev/full (ENOSPC), read source -> /proc/self/mem (EIO), a regular file in place of a directory (ENOTDIR/EEXIST): write_toml_file, read_toml_file, uncached_layer / cached_layer (metadata file read and write), LayerRef::write_metadata / write_env / write_sboms / write_exec_d_programs / read_env, LayerEnv::write_to_layer_dir / read_from_layer_dir, read_platform_env, and the real runtime as detect/build (plan, launch.toml, store.toml read and write, SBOM files, buildpack plan, platform env): the call must return Err / the process must exit with a status that is neither 0 nor 100; non-trivial = all of them (a control run without the fault must succeed)",
-        "26 fault positions x {control, faulted}",
+        "27 fault positions x {control, faulted}",
     );
     let mut case = |name: &str, control_ok: bool, faulted_err: bool, detail: String, r: &mut Report| {
         r.evaluations += 1; r.nontrivial += 1;
@@ -88,6 +88,13 @@ pub fn faults(_thorough: bool) -> Report {
       case("LayerEnv::write_to_layer_dir: env.build is a regular file", c, f.is_err(), format!("{f:?}"), &mut r);
       let d3 = fresh("le3"); fs::create_dir_all(d3.join("env.build")).unwrap(); symlink(EIO, d3.join("env.build/X.append")).unwrap(); let f = LayerEnv::read_from_layer_dir(&d3);
       case("LayerEnv::read_from_layer_dir: env.build/X.append <- EIO", LayerEnv::read_from_layer_dir(&d).is_ok(), f.is_err(), format!("{:?}", f.map(|_| ())), &mut r); }
+    // eight process types, ONE of which cannot be written (its name is longer than a file name may be: mkdir fails whoever runs this):
+    // whatever order the map is walked in, the failure must come back (10 fresh maps = 10 iteration orders)
+    { let mk = |bad: bool| { let mut e = LayerEnv::new(); for i in 0..7 { e.insert(Scope::Process(format!("proc{i}")), MB::Override, "V", "1"); } e.insert(Scope::Process(if bad { "x".repeat(300) } else { "last".into() }), MB::Override, "V", "1"); e };
+      let c = mk(false).write_to_layer_dir(fresh("lemany")).is_ok();
+      let mut swallowed = vec![];
+      for t in 0..10 { let d = fresh(&format!("lemany{t}")); if mk(true).write_to_layer_dir(&d).is_ok() { swallowed.push(t); } }
+      case("LayerEnv::write_to_layer_dir: one of eight process directories cannot be created (10 trials)", c, swallowed.is_empty(), format!("Ok returned in trials {swallowed:?}"), &mut r); }
     { let p = fresh("platform/env"); fs::write(p.join("GOOD"), b"1").unwrap(); let c = <libcnb::generic::GenericPlatform as libcnb::Platform>::from_path(root.join("platform")).is_ok(); symlink(EIO, p.join("BAD")).unwrap(); let f = <libcnb::generic::GenericPlatform as libcnb::Platform>::from_path(root.join("platform"));
       case("read_platform_env: env/BAD <- EIO", c, f.is_err(), format!("{:?}", f.map(|_| ())), &mut r); }
     // ---- the runtime
